@@ -29,6 +29,7 @@
 #include <sys/wait.h>
 #include <sys/time.h>
 #include <sys/resource.h>
+#include <new>
 #include <unistd.h>
 
 #if defined (__SANITIZE_ADDRESS__)
@@ -996,6 +997,8 @@ main (int argc, char **argv)
 	    // sanitizer builds reserve address space far beyond this and keep their own limits)
 	    struct rlimit rl = {(rlim_t) 3 << 30, (rlim_t) 3 << 30};
 	    setrlimit (RLIMIT_AS, &rl);
+	    // running out of that budget ends the case like running out of time does
+	    std::set_new_handler ([] { _exit (86); });
 	  }
 #endif
 	  // bison's yyerror writes to C stderr; silence it.
@@ -1067,7 +1070,7 @@ main (int argc, char **argv)
 	  if (WIFSIGNALED (status))
 	    why = (WTERMSIG (status) == SIGALRM || WTERMSIG (status) == SIGPROF) ? "timeout" : "signal " + std::to_string (WTERMSIG (status));
 	  else
-	    why = "exit " + std::to_string (WEXITSTATUS (status));
+	    why = WEXITSTATUS (status) == 86 ? std::string ("timeout (memory budget)") : "exit " + std::to_string (WEXITSTATUS (status));
 	  printf ("{\"crash\":\"%s\"}\n", why.c_str ());
 	  next = begun + 1;
 	}
